@@ -80,3 +80,25 @@ pub proof fn lemma_frac_exp_bounds(s: Seq<u8>, p2: int)
         if at(s, p3, 0x65) || at(s, p3, 0x45) { lemma_exp_bounds(s, p3 + 1); }
     } else if at(s, p2, 0x65) || at(s, p2, 0x45) { lemma_exp_bounds(s, p2 + 1); }
 }
+
+// What parse_number consumes: like the RFC 8259 number without sign, except that after a leading '0' it
+// stops (the caller rejects the digit that follows; a digit can never follow a value).
+pub open spec fn lenient_end(s: Seq<u8>, p: int) -> Option<int> {
+    if !dig_at(s, p) { None } else if s[p] == 0x30 { frac_exp_end(s, p + 1) } else { frac_exp_end(s, digits_end(s, p)) }
+}
+pub proof fn lemma_lenient_extends_grammar(s: Seq<u8>, p: int)
+    ensures unsigned_end(s, p).is_some() ==> lenient_end(s, p) == unsigned_end(s, p),
+{ }
+pub open spec fn number_end_l(s: Seq<u8>, p: int) -> Option<int> {
+    if at(s, p, 0x2d) { lenient_end(s, p + 1) } else { lenient_end(s, p) }
+}
+pub proof fn lemma_number_end_l_bounds(s: Seq<u8>, p: int)
+    requires 0 <= p <= s.len(), number_end_l(s, p).is_some(),
+    ensures p < number_end_l(s, p).unwrap() <= s.len(),
+{
+    let p1 = if at(s, p, 0x2d) { p + 1 } else { p };
+    lemma_digits_end_bounds(s, p1);
+    if p1 + 1 <= s.len() { lemma_digits_end_bounds(s, p1 + 1); }
+    let p2 = if s[p1] == 0x30 { p1 + 1 } else { digits_end(s, p1) };
+    lemma_frac_exp_bounds(s, p2);
+}
